@@ -321,10 +321,19 @@ def ob_hitsound_copy(state, ctx):
     C = classes("osu")
     src = _chart(ctx, "osu", "s")
     tgt = _chart(ctx, "osu", "g")
-    src.hits = C["HitList"]([C["Hit"](ctx.real("x0"), 0, hitsound_set=2, volume=30), C["Hit"](ctx.real("x1"), 1, hitsound_file="a.wav", volume=30)])
-    src.holds = src.holds[0:0]
-    tgt.holds = tgt.holds[0:1]
-    if state == "reversed":
+    if state.startswith("silent-source"):  # no note of the source carries any sound; the target has sounds and sample events of its own
+        src.hits = C["HitList"]([C["Hit"](ctx.real("x0"), 0), C["Hit"](ctx.real("x1"), 1)])
+        src.holds = src.holds[0:0]
+        src.samples = src.samples[0:0]
+        tgt.hits = C["HitList"]([C["Hit"](ctx.real("y0"), 0, hitsound_set=8, sample_set=1, hitsound_file="own.wav", volume=70), C["Hit"](ctx.real("y1"), 1, hitsound_set=2)])
+    elif state.startswith("empty-source"):
+        src.hits, src.holds, src.samples = src.hits[0:0], src.holds[0:0], src.samples[0:0]
+        tgt.hits = C["HitList"]([C["Hit"](ctx.real("y0"), 0, hitsound_set=8, sample_set=1, hitsound_file="own.wav", volume=70)])
+    else:
+        src.hits = C["HitList"]([C["Hit"](ctx.real("x0"), 0, hitsound_set=2, volume=30), C["Hit"](ctx.real("x1"), 1, hitsound_file="a.wav", volume=30)])
+        src.holds = src.holds[0:0]
+        tgt.holds = tgt.holds[0:1]
+    if state.endswith("reversed"):
         tgt.hits = tgt.hits[::-1]
         src.hits = src.hits[::-1]
     run_op(ctx, dict(source=src, target=tgt), lambda: hitsound_copy(src, tgt), True)
@@ -359,7 +368,7 @@ def obligations(tier, seed):
                                                       "o2j": ["convert-O2JToBMS", "convert-O2JToOsu", "convert-O2JToQua", "convert-O2JToSM", "convert-O2JToSM.merge"]}[g]
         for opname in names:
             obs.append(Obligation("C14/mapset/%s/%s" % (g, opname), partial(ob_mapset, g, opname), bound="%s mapset of 2 charts, operation %s" % (g, opname), max_paths=4000, timeout_s=240))
-    for state in ("default", "reversed"):
+    for state in ("default", "reversed", "silent-source", "silent-source-reversed", "empty-source"):
         obs.append(Obligation("C14/hitsound_copy/%s" % state, partial(ob_hitsound_copy, state), bound="hitsound_copy on two osu charts (rows %s), symbolic times" % state, max_paths=6000, timeout_s=300))
     # sequences of two operations on the same input
     seq_list = [("sorted", "append-item"), ("after", "move_start_to"), ("append-list-sort", "sorted-rev"), ("empty-append-list-sort", "deepcopy"), ("move_end_to", "between")]
